@@ -90,7 +90,82 @@ class Rename(ast.NodeTransformer):
         return n
 
 
-TRANSFORMS = {"method2func": Method2Func, "flipcmp": FlipCmp, "len2shape": Len2Shape, "commute": Commute, "matmul2dot": MatMul2Dot, "augassign": AugAssign}
+class Hoist(ast.NodeTransformer):
+    """x = f(g(a), b)  ->  hoisted_k = g(a); x = f(hoisted_k, b): the first call nested in the value of an assignment gets a temporary"""
+    def __init__(self):
+        self.k = 0
+
+    def visit_FunctionDef(self, f):
+        f.body = self._block(f.body)
+        return f
+
+    def _block(self, stmts):
+        out = []
+        for st in stmts:
+            for fld in ("body", "orelse", "finalbody"):
+                if hasattr(st, fld) and isinstance(getattr(st, fld), list) and not isinstance(st, ast.FunctionDef):
+                    setattr(st, fld, self._block(getattr(st, fld)))
+            if isinstance(st, ast.Assign) and len(st.targets) == 1 and isinstance(st.targets[0], ast.Name) and isinstance(st.value, (ast.BinOp, ast.Call)):
+                inner = None
+                for n in ast.walk(st.value):
+                    if n is not st.value and isinstance(n, ast.Call) and not any(isinstance(x, (ast.Lambda, ast.Starred, ast.GeneratorExp, ast.ListComp)) for x in ast.walk(n)) \
+                            and isinstance(n.func, (ast.Attribute, ast.Name)) and len(ast.unparse(n)) > 12:
+                        inner = n
+                        break
+                if inner is not None and self.n < 3:
+                    self.n += 1
+                    self.k += 1
+                    name = f"hoisted_{self.k}"
+                    tmp = ast.Assign(targets=[ast.Name(id=name, ctx=ast.Store())], value=inner, lineno=st.lineno)
+
+                    class Rep(ast.NodeTransformer):
+                        def visit_Call(s2, n):
+                            if n is inner:
+                                return ast.Name(id=name, ctx=ast.Load())
+                            return s2.generic_visit(n)
+                    st.value = Rep().visit(st.value)
+                    out.append(tmp)
+            out.append(st)
+        return out
+
+
+class Inline(ast.NodeTransformer):
+    """a temporary assigned once and read once, in the next statement, is inlined there"""
+    def visit_FunctionDef(self, f):
+        f.body = self._block(f.body, f)
+        return f
+
+    def _block(self, stmts, f):
+        out = list(stmts)
+        i = 0
+        while i + 1 < len(out):
+            st, nx = out[i], out[i + 1]
+            if isinstance(st, ast.Assign) and len(st.targets) == 1 and isinstance(st.targets[0], ast.Name) and isinstance(nx, (ast.Assign, ast.Return, ast.Expr, ast.AugAssign)) and self.n < 2:
+                name = st.targets[0].id
+                stores = [x for x in ast.walk(f) if isinstance(x, ast.Name) and x.id == name and isinstance(x.ctx, ast.Store)]
+                loads = [x for x in ast.walk(f) if isinstance(x, ast.Name) and x.id == name and isinstance(x.ctx, ast.Load)]
+                loads_nx = [x for x in ast.walk(nx) if isinstance(x, ast.Name) and x.id == name and isinstance(x.ctx, ast.Load)]
+                if len(stores) == 1 and len(loads) == 1 and len(loads_nx) == 1 and not isinstance(st.value, (ast.Lambda, ast.ListComp, ast.GeneratorExp, ast.Yield)):
+                    val = st.value
+
+                    class Rep(ast.NodeTransformer):
+                        def visit_Name(s2, n):
+                            if n.id == name and isinstance(n.ctx, ast.Load):
+                                return val
+                            return n
+                    out[i + 1] = Rep().visit(nx)
+                    del out[i]
+                    self.n += 1
+                    continue
+            i += 1
+        for st in out:
+            for fld in ("body", "orelse", "finalbody"):
+                if hasattr(st, fld) and isinstance(getattr(st, fld), list) and not isinstance(st, ast.FunctionDef):
+                    setattr(st, fld, self._block(getattr(st, fld), f))
+        return out
+
+
+TRANSFORMS = {"hoist": Hoist, "inline": Inline, "method2func": Method2Func, "flipcmp": FlipCmp, "len2shape": Len2Shape, "commute": Commute, "matmul2dot": MatMul2Dot, "augassign": AugAssign}
 
 
 def local_names(f):
